@@ -18,6 +18,21 @@ META = {
              'is evaluated on every route the real router invokes and the JSR311 model is compared with the implementation; '
              'its Coq proof is not done yet (partial).',
         design_ref='DESIGN.md section 6, C01', note=NOTE_ROUTING, technique=TECH),
+    'C02': dict(
+        text='Theorems Props.C02_curly and Props.C02_detect (Coq, no axioms): under CurlyRouter, for every oracle, table and '
+             'request whose detected service uses the documented template forms, routing never panics and the outcome meets '
+             'the declarative cascade over the set of admitting routes (404 / 405 with exactly their methods / 415 / 406 / one '
+             'function of the surviving routes); detectRoute equals the cascade on any candidate list and the cascade is '
+             'order-independent (both routers share it). RouterJSR311: cascade evaluated on implementation outcomes with the '
+             'JSR311 admission predicate + model correspondence; Coq proof of the JSR311 matcher not done (partial). '
+             'Defects F5 and F6 were found by this check and repaired in /repo.',
+        design_ref='DESIGN.md section 6, C02', note=NOTE_ROUTING, technique=TECH),
+    'C04': dict(
+        text='Theorem Props.C04_curly (Coq, no axioms): under CurlyRouter the parameter map of an invoked route (documented '
+             'forms) is exactly the map of the structural bindings of root+route template on the path tokens (segment minus '
+             'verb/suffix; tail = remaining segments joined by "/"); extraction cannot panic on an admitted path. '
+             'RouterJSR311: S.jsr_route_bindings evaluated on the parameters real handlers see + model correspondence (partial).',
+        design_ref='DESIGN.md section 6, C04', note=NOTE_ROUTING, technique=TECH),
     'C14': dict(
         text='Theorem Props.C14_curly (Coq, no axioms): under CurlyRouter, for every table, request and path p with a non-slash '
              'byte, routing p and p + "/" gives the same outcome (invoked route, parameter values, error status, Allow list), by '
